@@ -42,15 +42,15 @@ func c07(e *Env) {
 	}
 	ob1b := r.Ob("R1", "acquire:mutex-spans-loop", "the slot mutex is held across the whole token loop (at the loop test on every iteration), so a task's tokens are deposited atomically with respect to other acquirers: two multi-core tasks can never each hold a part of their tokens")
 	for _, n := range ga.Select(a.isSlotSend) {
-		l := core.InnermostLoop(n.Instr)
-		if l == nil {
+		las := iterLoops(ga, n)
+		if len(las) == 0 {
 			ob1b.Fail(ga.Where(n), "the slot send is not inside a token loop")
 			continue
 		}
-		_, iff := core.HeaderTest(l)
+		_, iff := core.HeaderTest(las[0].L)
 		found := false
 		for _, m := range ga.Nodes {
-			if iff != nil && m.Instr == ssa.Instruction(iff) && m.Ctx == n.Ctx {
+			if iff != nil && m.Instr == ssa.Instruction(iff) && m.Ctx == las[0].At.Ctx {
 				found = true
 				ob1b.Check(mxBit != 0 && la.must[m]&mxBit != 0, ga.Where(m), "mutex held at the loop test", "at the token loop's test the slot mutex is not certainly held (it is released between two sends): with CoresPerTask >= 2 two tasks can each deposit a part of their tokens and block each other forever")
 			}
@@ -181,21 +181,31 @@ func (e *Env) c07Oversize() {
 		return
 	}
 	cpt := e.P.FieldVar("scipipe", "Process", "CoresPerTask")
+	xs := e.xsym()
+	var curCtx *core.Ctx
 	isCap := func(v ssa.Value) bool {
-		c, ok := v.(*ssa.Call)
-		if !ok {
-			return false
-		}
-		b, ok := c.Call.Value.(*ssa.Builtin)
-		return ok && b.Name() == "cap" && len(c.Call.Args) == 1 && fieldOfLoad(c.Call.Args[0]) == a.slotField
+		s := xs.InCtx(curCtx, v)
+		return s.Op == "call" && s.Name == "builtin.cap" && len(s.Args) == 1 && s.Args[0].Op == "field" && fieldOfLoad(s.Args[0].Val) == a.slotField
 	}
-	isCores := func(v ssa.Value) bool { return cpt != nil && fieldOfLoad(v) == cpt }
+	isCores := func(v ssa.Value) bool {
+		s := xs.InCtx(curCtx, v)
+		return cpt != nil && s.Op == "field" && fieldOfLoad(s.Val) == cpt
+	}
 	found := 0
 	for _, n := range g.Nodes {
 		bo, ok := n.Instr.(*ssa.BinOp)
 		if !ok {
 			continue
 		}
+		switch bo.Op {
+		case token.GTR, token.LSS, token.GEQ, token.LEQ, token.EQL, token.NEQ:
+		default:
+			continue
+		}
+		if !isIntType(bo.X.Type()) {
+			continue
+		}
+		curCtx = n.Ctx
 		var oversizeWhen bool // value of the comparison that means "oversize"
 		strict := true
 		switch {
@@ -252,8 +262,11 @@ func (e *Env) c07Oversize() {
 	// the test dominates the first go
 	const evCmp core.Bits = 1
 	must := g.Forward(func(n *core.Node) core.Transfer {
-		if bo, ok := n.Instr.(*ssa.BinOp); ok && ((isCores(bo.X) && isCap(bo.Y)) || (isCap(bo.X) && isCores(bo.Y))) {
-			return core.Transfer{Gen: evCmp}
+		if bo, ok := n.Instr.(*ssa.BinOp); ok && isIntType(bo.X.Type()) {
+			curCtx = n.Ctx
+			if (isCores(bo.X) && isCap(bo.Y)) || (isCap(bo.X) && isCores(bo.Y)) {
+				return core.Transfer{Gen: evCmp}
+			}
 		}
 		return core.Transfer{}
 	}, true)
